@@ -202,13 +202,11 @@ class SqlFluffColumn(Column):
             ColumnQualifierTuple(
                 src_col.raw_name,
                 # the table is not in the scope of the enclosing query: refer to it by its full name, schema included
-                (
-                    str(src_col.parent)
-                    if isinstance(src_col.parent, Table)
-                    else src_col.parent.raw_name if src_col.parent else None
-                ),
+                str(src_col.parent) if src_col.parent else None,
             )
             for src_col in src_cols
+            # a path that starts at a column of a subquery (fed by a literal only) has no table column to report
+            if src_col.parent is None or isinstance(src_col.parent, Table)
         ]
         return source_columns
 
